@@ -288,11 +288,15 @@ fn finalize_entry(fs: &Fs, entry: WorkingEntry, game: Game, emitter: &impl Emitt
     let texture_data = finalize_entry_texture(fs, &mut specs, &entry.path, entry.loaded_texture.as_ref())?;
 
     // More defaults
+    // (next_power_of_two overflows above 2^31)
+    let runtime_dim = |img_dim: u32| u32::checked_next_power_of_two(img_dim).ok_or_else(|| {
+        emitter.emit(error!("{}: image dimension {} is too large", entry.path.value, img_dim))
+    });
     if let Some(img_width) = specs.img_width.into_option() {
-        specs.rt_width.set_soft_if_missing(u32::next_power_of_two(img_width));
+        specs.rt_width.set_soft_if_missing(runtime_dim(img_width)?);
     }
     if let Some(img_height) = specs.img_height.into_option() {
-        specs.rt_height.set_soft_if_missing(u32::next_power_of_two(img_height));
+        specs.rt_height.set_soft_if_missing(runtime_dim(img_height)?);
     }
 
     // Now check that rt_width and rt_height were filled.
@@ -558,7 +562,7 @@ impl Entry {
             (&mut opt_rt_height, opt_img_height),
         ] {
             if let Some(img_dim) = opt_img_dim {
-                *opt_rt_dim = opt_rt_dim.filter(|&x| x != u32::next_power_of_two(img_dim));
+                *opt_rt_dim = opt_rt_dim.filter(|&x| Some(x) != u32::checked_next_power_of_two(img_dim));
             }
         }
 
